@@ -4,7 +4,9 @@ From Ucfg Require Export Base ParseInt Consts Field Tree PathOps Merge OTree F64
 
 Inductive xobs := XV (t : otree) | XE (r : ereason) | XPanic | XHang.
 
-Inductive tfield := TStr (k : string) | TList (k : string) (n : nat) | TSlice (k : string) | TRe (k : string).
+Inductive tfield := TStr (k : string) | TList (k : string) (n : nat) | TSlice (k : string) | TRe (k : string) | TDur (k : string).
+    (* TDur: a time.Duration field for a setting that stands for a whole number (of seconds), reached
+       directly or through references: reported in nanoseconds *)
     (* TRe: a *regexp.Regexp field (the setting's text is a valid expression): reported by its source text *)
 
 Inductive case :=
@@ -268,6 +270,20 @@ Definition spec_typed (o : eopts) (root : value) (fs : list tfield) : styped :=
        | Some (Some s) => go r ((k, OStr s) :: acc)
        | Some None => STErr
        | None => STAny
+       end
+     | TDur k :: r =>
+       match root with
+       | VSub d _ =>
+         match dict_get k d with
+         | Some (nm, x) =>
+           match reify_s o fuel fuel {| l_root := root; l_path := nm; l_val := x |} with
+           | Ok ((XInt n | XUint n), false) => go r ((k, OInt (n * 1000000000)) :: acc)
+           | Err _ _ => STErr
+           | _ => STAny
+           end
+         | None => STAny
+         end
+       | _ => STAny
        end
      | TList k n :: r =>
        match ents k O n with
